@@ -1,12 +1,12 @@
 \* E0 thorough: 2 listeners, 3 classes (M > M1 > M2), 2 priorities, filters all/tag, <=2 setup subscriptions,
-\* <=3 messages, <=1 late (un)subscription, <=2 nested calls, blocks <=2.
+\* <=2 messages, <=1 late (un)subscription, <=2 nested calls, blocks <=2.
 CONSTANTS
   Listener = {"L1", "L2"}
   Class <- c_Class3
   Parent <- c_Parent3
   Prio = {1, 2}
   Filter = {"all", "tag"}
-  MaxMsg = 3
+  MaxMsg = 2
   MaxFrames = 6
   MaxBlocks = 2
   MaxSetup = 2
